@@ -36,6 +36,7 @@ package protocol
 
 // the chain bridge never returns more hashes than asked for
 //@ func chainManager.GetBlockHashesFromHash(self, hash, amount) -> (hashes, err)
+//@   requires[bounded-request] amount <= 1024
 //@   ensures err == nil ==> len(hashes) <= amount
 //@   modifies nothing
 //@ func chainManager.GetBlockByNumber(self, num) -> (m, err)
@@ -49,7 +50,11 @@ package protocol
 //@   modifies nothing
 
 //@ func chainBridge.GetBlockHashesFromHash(c, hash, amount) -> (hashes, err)
+//@   safety
+//@   requires amount <= 1024
 //@   ensures[at-most-amount] err == nil ==> len(hashes) <= amount
+//@   loop 1
+//@     invariant fresh(hashes) && len(hashes) == len(momentums)
 
 // every reply is capped, whatever the request says
 //@ func ProtocolManager.handleMsg(pm, p)
